@@ -82,7 +82,7 @@ type c11Effect struct {
 type c11Model struct {
 	vers []c11Ver
 	// history flags
-	sawSoft, sawHard, sawEvolve, sawInverse, sawRelink, sawVacuum bool
+	sawSoft, sawHard, sawEvolve, sawInverse, sawRelink, sawVacuum, sawInvUnlink bool
 }
 
 func (m *c11Model) addEdge(s, t int, rel string, w int, eff *c11Effect) {
@@ -154,6 +154,7 @@ func (m *c11Model) apply(op c11Op) c11Effect {
 	case "unlink":
 		m.removeEdge(op.Src, op.Dst, op.Rel, op.Hard, &eff)
 		if op.Inv != "" {
+			m.sawInvUnlink = true
 			m.removeEdge(op.Dst, op.Src, op.Inv, op.Hard, &eff)
 		}
 	case "gvacuum":
@@ -511,6 +512,9 @@ func c11Classify(c c11Case) (bool, []string) {
 	}
 	if m.sawRelink {
 		lab["g:relinked-after-delete"] = true
+	}
+	if m.sawInvUnlink {
+		lab["g:unlink-naming-an-inverse-relation"] = true
 	}
 	if m.sawVacuum {
 		lab["g:graph-vacuum-of-closed-versions"] = true
